@@ -171,6 +171,12 @@ func (sim) Execute(env *core.Env, p *core.Plan) {
 		if r.stop || env.Failed() {
 			break
 		}
+		if r.c8 != nil && r.c8.resync {
+			r.c8.resync = false
+			if !r.reopen(r.path) {
+				break
+			}
+		}
 		env.State("%s", r.m.digest())
 	}
 	if !r.stop && !env.Failed() {
